@@ -64,6 +64,11 @@ def catalogue(rng):
 
     add("rgo", kind="rgo", kw={"max_repeats": 4, "temperature": [0.5, 2.0]}, **base)
     add("rg_track", kind="rg_track", kw={"ntrials": 4, "temperature": [0.5, 2.0]}, **base)
+    # both sampling ranges collapsed to plain numbers (nothing is sampled, but the greedy noise is still drawn)
+    add("rg_track_fixed", kind="rg_track", kw={"ntrials": 4, "costmod": 1.0, "temperature": 0.3}, **base)
+    add("rg_track_fixed_costmod", kind="rg_track", kw={"ntrials": 4, "costmod": 2.0, "temperature": [0.1, 1.0]}, **base)
+    add("rgo_percall_fixed", kind="rgo_percall", kw={"costmod": 1.0, "temperature": 0.3}, **base)
+    add("rgo_ctor_fixed", kind="rgo", kw={"max_repeats": 4, "costmod": 1.5, "temperature": 0.2}, **base)
     add("random_opt", kind="random_opt", **base)
     add("labels", kind="method", method="labels", kw={"cutoff": 3, "parts": 3, "random_strength": 0.5}, **base)
     add("labels-agglom", kind="method", method="labels-agglom", kw={"groupsize": 3, "random_strength": 0.5}, **base)
